@@ -36,6 +36,15 @@ T_Zone ==
         /\ NsecChainV(v, apex, e.assume) = nsec
         /\ Closed(nsec, Low(apex))
         /\ e.nsecttl = e.soattl
+        \* the workflow: however the collection was assembled (e.assembly), after
+        \* extending it twice with the generated NSEC records it is still sorted
+        \* and duplicate-free, holds the zone plus one NSEC per chain owner, and
+        \* yields the same chain
+        /\ ~e.again_err
+        /\ IsSortedRecs(e.recs2)
+        /\ {<<Low(e.recs2[i].n), e.recs2[i].t>> : i \in 1..Len(e.recs2)}
+             = {<<Low(r.n), r.t>> : r \in zone} \cup {<<nsec[i].owner, T_NSEC>> : i \in 1..Len(nsec)}
+        /\ Sets(e.nsec_again) = nsec
         \* NSEC3
         /\ LowChain(Nsec3Pass(e.recs, apex, e.exclude, e.assume, rank).out) = nsec3
         /\ Nsec3ChainV(v, apex, e.exclude, e.assume, rank) = nsec3
